@@ -36,3 +36,48 @@ class C19(Monitor):
                           how=s.snap['closed_how'])
             elif not s.exc['proto'] and s.exc['type'] not in ('ValueError', 'TypeError', 'RFC1122Error'):
                 self.fail('call-after-close-exception', '%s raised %s on a closed connection' % (s.op, s.exc['type']), s)
+
+    def finish(self, w):
+        """Receiving GOAWAY discards bytes not yet handed to the application:
+        re-execute the endpoint's log on a fresh connection *without taking any
+        output* until the GOAWAY has been processed; nothing may be left."""
+        if self.violations:
+            return
+        from ..world import Endpoint, World
+        for ep in ('c', 's'):
+            e0 = w.eps[ep]
+            if not e0.trk.goaway_recv:
+                continue
+            idx = None
+            for i, s in enumerate(e0.log):
+                if s.kind == 'recv' and s.ok and any(ev['t'] == 'ConnectionTerminated' for ev in s.events or ()):
+                    idx = i
+                    break
+            if idx is None:
+                continue
+            e = Endpoint(ep, w.cfg[ep], w.cfg.get('knobs', {}))
+            conn = e.conn
+            pending = 0
+            ok = True
+            for s in e0.log[:idx + 1]:
+                try:
+                    if s.kind == 'recv':
+                        conn.receive_data(s.chunk)
+                    else:
+                        World._dispatch(conn, s.op, s.args or {})
+                except Exception:  # noqa: BLE001
+                    if s.kind == 'recv':
+                        ok = False
+                        break
+                pending += len(s.out)
+            if not ok:
+                continue
+            self.probe('goaway_discard_checked')
+            if pending:
+                self.probe('goaway_with_pending_output')
+            left = conn.data_to_send()
+            last = e0.log[idx]
+            # output produced by frames *after* the GOAWAY inside the same chunk cannot exist (they raise)
+            if left:
+                self.fail('goaway-did-not-discard', 'output not yet taken survived a received GOAWAY', None,
+                          endpoint=ep, left=len(left), pending_before=pending)
